@@ -229,6 +229,80 @@ inline void build(program &P, const std::string &name) {
     m.rem(z, x, znum(3));
     m.select(x, le(E(y), E(P.K(1))), E(z), E(y));
     P.asrt(xx, le(E(x), E(P.K(3))));
+  } else if (name == "ops2") { // unsigned division / remainder, bitwise operations, shifts (constant second operands)
+    var_t x = P.iv("x"), a = P.iv("a"), b = P.iv("b"), c = P.iv("c"), d = P.iv("d");
+    if (P.range == 0) P.range = 4; // bitwise / division results of symbolic operands: keep the symbolic constants within +-4 of the defaults
+    P.mk("e", "x");
+    auto &e = P.cfg->insert("e");
+    auto &m = P.cfg->insert("m");
+    auto &xx = P.cfg->insert("x");
+    e >> m; m >> xx;
+    e.assume(le(E(P.K(0)), E(x)));      // x is not initialised: arbitrary in [K0, K1]
+    e.assume(le(E(x), E(P.K(20))));
+    e.udiv(a, x, znum(3));
+    e.urem(b, x, znum(4));
+    e.bitwise_and(c, x, znum(12));
+    m.shl(d, b, znum(2));
+    m.lshr(a, a, znum(1));
+    m.bitwise_or(c, c, znum(3));
+    m.bitwise_xor(b, b, znum(5));
+    m.ashr(x, x, znum(1));
+    P.asrt(xx, le(E(a), E(P.K(3))));
+    P.asrt(xx, le(E(d), E(P.K(12))));
+    P.asrt(xx, le(E(c), E(P.K(15))));
+    P.asrt(xx, le(E(x) + E(b), E(P.K(17))));
+  } else if (name == "bools2") { // or / xor / negated copies / Boolean select / numerical select on a Boolean-guarded path
+    var_t x = P.iv("x"), y = P.iv("y");
+    var_t b1 = P.bv("b1"), b2 = P.bv("b2"), b3 = P.bv("b3"), b4 = P.bv("b4"), b5 = P.bv("b5");
+    P.mk("e", "x");
+    auto &e = P.cfg->insert("e");
+    auto &t = P.cfg->insert("t");
+    auto &f = P.cfg->insert("f");
+    auto &xx = P.cfg->insert("x");
+    e >> t; e >> f; t >> xx; f >> xx;
+    e.bool_assign(b1, le(E(x), E(P.K(5))));          // x, y are not initialised
+    e.bool_assign(b2, le(E(P.K(2)), E(y)));
+    e.bool_or(b3, b1, b2);
+    e.bool_xor(b4, b1, b2);
+    e.bool_assign(b5, b4, true);                     // b5 := not b4
+    e.bool_select(b4, b3, b5, b1);                   // b4 := b3 ? b5 : b1
+    t.bool_assume(b4);
+    t.select(y, le(E(x), E(P.K(0))), E(x), E(P.K(1)));
+    f.bool_not_assume(b3);
+    f.assign(y, E(x) - E(P.K(6)));
+    P.asrt(xx, le(E(P.K(0)), E(y)));
+    xx.bool_assert(b3);
+  } else if (name == "boolneg") { // b := not(c) where nothing is recorded for c: what was recorded for b before must not survive
+    var_t x = P.iv("x"), y = P.iv("y");
+    var_t b = P.bv("b"), c = P.bv("c");
+    P.mk("e", "x");
+    auto &e = P.cfg->insert("e");
+    auto &m = P.cfg->insert("m");
+    auto &xx = P.cfg->insert("x");
+    e >> m; m >> xx;
+    e.assign(y, E(P.K(7)));
+    e.bool_assign(b, le(E(P.K(5)), E(x)));           // x is not initialised
+    e.havoc(c);
+    m.bool_assign(b, c, true);                       // b := not c
+    m.bool_assume(b);
+    P.asrt(xx, le(E(P.K(3)), E(x)));
+  } else if (name == "boolhavoc") { // the operand of a recorded Boolean is havocked while nothing else is known
+    var_t x = P.iv("x");
+    var_t b = P.bv("b"), c = P.bv("c"), d = P.bv("d");
+    P.mk("e", "x");
+    auto &e = P.cfg->insert("e");
+    auto &m = P.cfg->insert("m");
+    auto &k = P.cfg->insert("k");
+    auto &xx = P.cfg->insert("x");
+    e >> m; m >> k; k >> xx;
+    e.bool_assign(b, le(E(P.K(0)), E(x)));          // x, c are not initialised
+    e.bool_assign(d, c);
+    m.havoc(x);
+    m.havoc(c);
+    k.bool_assume(b);
+    k.bool_assume(d);
+    P.asrt(xx, le(E(P.K(-3)), E(x)));
+    xx.bool_assert(c);
   } else if (name == "bools") {
     var_t x = P.iv("x"), y = P.iv("y");
     var_t b1 = P.bv("b1"), b2 = P.bv("b2"), b3 = P.bv("b3");
